@@ -18,7 +18,7 @@ with open(_os.path.join(_os.path.dirname(_os.path.dirname(_os.path.abspath(__fil
         _PROPS[_p["id"]] = _p
 
 
-def reg(id, sources, rule, level="exploration", quick=("dbg-asan",), thorough=("dbg-asan", "rel-asan"),
+def reg(id, sources, rule, level="exploration", quick=("dbg-asan", "rel-asan"), thorough=("dbg-asan", "rel-asan"),
         assumptions=(), exhaustive=None, **kw):
     d = dict(id=id, sources=list(sources), rule=rule, level=level,
              configs={"quick": list(quick), "thorough": list(thorough)},
@@ -40,7 +40,7 @@ reg("C16", ["c16_crc.c"],
                 "thorough": "all 2^24 update steps and all 2^32 (state, two-octet buffer) pairs"})
 
 reg("C15", ["c15_endian.c"],
-    quick=("dbg-asan", "noswap"), thorough=("dbg-asan", "noswap", "rel-asan"),
+    quick=("dbg-asan", "noswap", "rel-asan"), thorough=("dbg-asan", "noswap", "rel-asan"),
     rule="for each of the 48 store/load codec pairs (u/s x 16..64 bit x n/b/l, f32/f64 x n/b/l): all values for 16 "
          "and 24 bit (16 bit at every alignment 0..7), 32 bit strided by 211 (quick) or all 2^32 (thorough), wider: "
          "every octet lane x every octet value x 3 fills x 8 alignments, all one- and two-bit patterns and their "
@@ -234,7 +234,8 @@ reg("C05", ["c05_history.c"],
          "min/max/range/callback register. 2000+1000 units quick, 200000+50000 thorough. A signature is a unit; "
          "evaluations counts steps.",
     assumptions=["typed set / bit operations on registers in areas flagged read-only (write callback present): the "
-                 "statements do not rule; either outcome is accepted as long as its effect is consistent"])
+                 "statements do not rule; either outcome is accepted as long as its effect is consistent"],
+    fuzz={"target": "fuzz/fz_regtable.c", "runs": {"quick": 96000, "thorough": 9600000}, "max_len": 3001})
 
 reg("C06", ["c06_regp_exec.c"],
     rule="'session': 8 sessions per unit of 1-50 frames on one RegP in server role (serial or TCP, 8- or 16-bit "
